@@ -21,6 +21,15 @@ by `simulate` (the grammars are LL(1) by construction: every rule starts with
 its own keyword).
 
 Oracle: the documented resolution computed from the files alone (`doc_resolve`).
+
+Since V25 a case may be a *history*: `case["before"]` lists trees that were loaded earlier in the same
+process from the same directory (files rewritten / removed / added in between, another tree at the same
+paths, the same tree again, another main file); the case itself is the last tree.  Every step is observed,
+sent to the model (`Imp.loadHistory`) and judged on the files as they are at that step.  File and
+directory names come from a pool (stems ending in the characters of the extension, stems that are
+prefixes of each other, the same stem in several directories, files named like directories), and
+`case["entry"]` says how the main file is handed to textX (absolute / relative path, `.`/`..` components,
+PathLike, `metamodel_from_str(..., file_name=)`).
 """
 import builtins
 import os
@@ -37,6 +46,18 @@ BASE = ["ID", "STRING", "BOOL", "INT", "FLOAT", "STRICTFLOAT", "NUMBER", "BASETY
 BUILTIN = BASE[:-1]  # the built-in rules a grammar can reference (and define again under the same name)
 BASENS = "__base__"
 KF_CYCLE = "C25-cyclic-imports"
+
+# file / directory names.  LETTERS: the names of the rounds before V25.  WORDS: stems ending in a character of the
+# extension ".tx" (layout, syntax, root, text, tx, x …), stems that are prefixes / suffixes of each other (m, mm, m1,
+# m10), upper case, underscores, digits, names of rules (C0, Main) - a namespace is the path of the file below the
+# directory of the main file, whatever the names are.
+LETTERS = ["m", "b", "c", "d", "e", "f", "g", "h"]
+WORDS = ["layout", "syntax", "root", "first", "text", "context", "types", "base", "main", "grammar", "model", "tx", "t",
+         "x", "xt", "txt", "ext", "mtx", "txm", "tt", "xx", "x_t", "t_x", "T", "X", "Tx", "m", "mm", "m1", "m10", "m_",
+         "_m", "_", "a1", "lib", "sub", "common", "C0", "Main", "xtx", "index", "ast", "export", "tx_", "dot_tx"]
+DIRWORDS = ["sub", "deep", "lib", "ext", "tx", "text", "pkg", "x", "t", "lib_x", "test", "src", "m", "Tx", "_"]
+ENTRIES = ["abs", "rel", "reldir", "dot", "updown", "path", "str"]
+TREE_KEYS = ("main", "files", "shape", "texts", "queries", "entry")
 
 # The built-in rules (docs/src/grammar.md "textX base types" describes them; the regular expressions are the ones of
 # the language definition - only their behaviour on the few token shapes below matters); NUMBER and BASETYPE are
@@ -72,6 +93,24 @@ def abs_import(cur, imp):
 
 def files_of(case):
     return {nstr(f["ns"]): f for f in case["files"]}
+
+
+def tree_of(case):
+    """the tree of grammar files of a case / of a step, without the history"""
+    return {k: case[k] for k in TREE_KEYS if k in case}
+
+
+def steps_of(case):
+    """the trees loaded one after the other in one process from one directory; the case itself is the last"""
+    return [tree_of(t) for t in case.get("before", [])] + [tree_of(case)]
+
+
+def step_obs(case, obs):
+    """the observations of the steps (None when the observation does not have one per step)"""
+    if not isinstance(obs, dict):
+        return None
+    out = list(obs.get("before", [])) + [obs]
+    return out if len(out) == len(case.get("before", [])) + 1 else None
 
 
 def file_index(case):
@@ -648,6 +687,8 @@ class Prop(Check):
         "Imp.C25_loaded_resolvable",
         "Imp.C25_load_iff",
         "Imp.C25_opened_exact",
+        "Imp.C25_history",
+        "Imp.C25_history_step",
     ]
     DRIVER = "Drivers/Imp.lean"
     QUICK_CASES = 340
@@ -655,7 +696,14 @@ class Prop(Check):
     CASE_TIMEOUT = 90
     PROCS_QUICK = 3  # shared machine
     PROCS_THOROUGH = 3
-    RULE = ("trees of 1..7 grammar files in nested directories with random import graphs (chains, diamonds, cycles, "
+    RULE = ("file and directory names from a pool (stems ending in the characters of the extension, prefixes of each other, "
+            "the same stem in several directories, files named like directories; 30 % the letters m, b, c …), the main file "
+            "named in seven ways (absolute, relative to two working directories, ./ and ../ components, PathLike, "
+            "metamodel_from_str with file_name); 30 % of the cases are histories: 2..3 trees loaded one after the other in "
+            "one process from one directory (files edited in place: rules removed / added / moved, imports reordered / "
+            "removed / added, files removed; another tree at the same paths; the same tree again; another main file), "
+            "every load observed and judged on the files of its step; each tree: "
+            "trees of 1..7 grammar files in nested directories with random import graphs (chains, diamonds, cycles, "
             "self-imports, repeated imports), overlapping rule names, unqualified / qualified / link references (implicit "
             "and explicit match rule), abstract, single-reference and match rules, files that define rules named like the "
             "built-in rules (ID, INT, …) and refer to them, 1..5 model texts plus up to 10 probe texts (token of the "
@@ -666,7 +714,8 @@ class Prop(Check):
                 "namespace, attribute class and PEG-rule class of every reference (the match rule of a link included), "
                 "metamodel[name], opened files, duplicate class objects, fqn trees with the values of parsed texts; failed "
                 "loads: the file reported missing, and the name reported unresolvable must be one of the references of the "
-                "failing file that the model cannot resolve at that point; the files-only specification of the theorems "
+                "failing file that the model cannot resolve at that point; histories: Imp.loadHistory, one answer per load, each load "
+                "compared with the model of the files of its own step; the files-only specification of the theorems "
                 "(Lean docResolve per reference, docLoadable) against the oracle's doc_resolve and the outcome of the load; not "
                 "modelled: referenced languages (reference statement), duplicate rule names inside one file, user classes, "
                 "rule kinds (a match rule is a rule without references)")
@@ -678,15 +727,42 @@ class Prop(Check):
     ]
 
     # ---------------------------------------------------------------- gen
-    def gen_one(self, rng, tier):
+    @staticmethod
+    def gen_names(rng):
+        """(style, file stems by file number, directory pool) of one case; all trees of a history use them, so
+        that successive trees put other contents at the same paths"""
+        style = rng.weighted([("letters", 3), ("words", 7)])
+        if style == "letters":
+            return style, list(LETTERS), [[], [], ["sub"], ["sub", "deep"], ["lib"]]
+        stems = rng.sample(WORDS, 8)
+        d1, d2, d3 = rng.sample(DIRWORDS, 3)
+        if rng.chance(0.15):
+            d1 = stems[0]  # a directory named like the main file
+        for i in range(1, 8):
+            if rng.chance(0.15):
+                stems[i] = stems[rng.randint(0, i - 1)]  # the same stem once more (in another directory)
+            elif rng.chance(0.1):
+                stems[i] = rng.choice([d1, d2, d3])  # a file named like a directory
+        return style, stems, [[], [], [d1], [d1, d2], [d3]]
+
+    def gen_tree(self, rng, tier, names, dirs_pool, layout=None):
+        """one tree of grammar files; `layout` = the namespaces of an earlier tree of the history, re-used as far
+        as they go (other contents at the same paths)"""
         shape = rng.weighted([("random", 5), ("chain", 1), ("diamond", 2), ("cycle", 2), ("single", 1)])
         nfiles = 1 if shape == "single" else rng.randint(2, 7 if tier != "quick" else 6)
-        dirs_pool = [[], [], ["sub"], ["sub", "deep"], ["lib"]]
-        names = ["m", "b", "c", "d", "e", "f", "g", "h"]
         files = []
         for i in range(nfiles):
-            d = [] if i == 0 else list(rng.choice(dirs_pool))
-            files.append({"ns": d + [names[i]], "imports": [], "rules": []})
+            if layout is not None and i < len(layout) and rng.chance(0.85):
+                ns = list(layout[i])
+            else:
+                for _try in range(8):
+                    d = [] if i == 0 else list(rng.choice(dirs_pool))
+                    ns = d + [names[i]]
+                    if all(f["ns"] != ns for f in files):
+                        break
+            if any(f["ns"] == ns for f in files):
+                ns = ns[:-1] + [f"{ns[-1]}{i}"]
+            files.append({"ns": ns, "imports": [], "rules": []})
 
         def can_import(a, b):  # import statements cannot leave the importing file's directory
             da, db = a["ns"][:-1], b["ns"][:-1]
@@ -870,7 +946,109 @@ class Prop(Check):
                 f["rules"] = [r for r in f["rules"] if r["name"] != "A0"]
                 f["rules"].append({"name": "A0", "refs": [{"q": None, "n": target, "how": "rule"}]})
                 shape += "+alias"
-        return finish({"main": "m", "files": files, "shape": shape})
+        return {"main": files[0]["ns"][0], "files": files, "shape": shape}
+
+    # edits of a tree between two loads ------------------------------------------------------------
+    @staticmethod
+    def edit_tree(rng, tree):
+        """The files after somebody worked on them: 1..3 of — a rule removed (references to it move on to the next
+        import or become unresolvable), a rule added (earlier in the documented order than the rule that was
+        found before), a rule moved to another file, import statements reordered / removed / added, a file
+        removed.  Every edit keeps the shape `render` / `simulate` rely on (kinds go with names)."""
+        import copy
+
+        t = copy.deepcopy({k: tree[k] for k in ("main", "files", "shape")})
+        files = t["files"]
+        names_used = sorted({r["name"] for f in files for r in f["rules"] if r["name"] != "Main"})
+        done = 0
+        for _try in range(12):
+            if done >= 1 and (done >= 3 or rng.chance(0.45)):
+                break
+            op = rng.weighted([("del-rule", 4), ("add-rule", 4), ("move-rule", 2), ("reorder", 2), ("del-import", 1),
+                               ("add-import", 1), ("del-file", 1)])
+            f = rng.choice(files)
+            fresh = lambda n: {"name": n, "kind": "match", "refs": []} if is_val_name(n) else \
+                {"name": n, "refs": [{"q": None, "n": n2, "how": "rule"} for n2 in names_used
+                                     if not is_abs_name(n2) and not is_val_name(n2)][:1]} if is_abs_name(n) else \
+                {"name": n, "refs": []}
+            if op == "del-rule":
+                ks = [k for k, r in enumerate(f["rules"]) if not (f is files[0] and k == 0)]
+                if len(f["rules"]) < 2 or not ks:
+                    continue
+                del f["rules"][rng.choice(ks)]
+            elif op == "add-rule":
+                cands = [n for n in names_used if rule_of(f, n) is None and
+                         (not is_abs_name(n) or fresh(n)["refs"])]
+                if not cands:
+                    continue
+                f["rules"].append(fresh(rng.choice(cands)))
+            elif op == "move-rule":
+                g = rng.choice(files)
+                ks = [k for k, r in enumerate(f["rules"]) if not (f is files[0] and k == 0) and rule_of(g, r["name"]) is None
+                      and (not is_abs_name(r["name"]) or fresh(r["name"])["refs"])]
+                if g is f or len(f["rules"]) < 2 or not ks:
+                    continue
+                k = rng.choice(ks)
+                g["rules"].append(fresh(f["rules"][k]["name"]))
+                del f["rules"][k]
+            elif op == "reorder":
+                if len(f["imports"]) < 2:
+                    continue
+                f["imports"] = f["imports"][1:] + f["imports"][:1] if rng.chance(0.5) else f["imports"][::-1]
+            elif op == "del-import":
+                if not f["imports"]:
+                    continue
+                del f["imports"][rng.below(len(f["imports"]))]
+            elif op == "add-import":
+                da = f["ns"][:-1]
+                bs = [g["ns"][len(da):] for g in files if g["ns"][:-1][: len(da)] == da and g is not f]
+                bs = [b for b in bs if b not in f["imports"]]
+                if not bs:
+                    continue
+                f["imports"].insert(rng.below(len(f["imports"]) + 1), rng.choice(bs))
+            elif op == "del-file":
+                if f is files[0] or len(files) < 3:
+                    continue
+                gone = nstr(f["ns"])
+                files.remove(f)
+                if rng.chance(0.8):  # … and the import statements naming it (else: a missing file)
+                    for g in files:
+                        g["imports"] = [x for x in g["imports"] if nstr(abs_import(g["ns"], x)) != gone]
+            done += 1
+        t["shape"] = tree["shape"] + "+edit"
+        return t
+
+    def gen_one(self, rng, tier):
+        style, names, dirs_pool = self.gen_names(rng)
+        tree = self.gen_tree(rng, tier, names, dirs_pool)
+        trees = [tree]
+        # a history: trees loaded before in the same process from the same directory
+        if rng.chance(0.3):
+            for _ in range(rng.weighted([(1, 7), (2, 3)])):
+                how = rng.weighted([("edit", 6), ("other-tree", 3), ("again", 1), ("other-main", 1)])
+                last = trees[-1]
+                if how == "edit":
+                    nxt = self.edit_tree(rng, last)
+                elif how == "other-tree":
+                    nxt = self.gen_tree(rng, tier, names, dirs_pool, layout=[f["ns"] for f in last["files"]])
+                elif how == "again":
+                    nxt = {k: last[k] for k in ("main", "files", "shape")}
+                else:  # the same files, another file of the main directory is the main file
+                    tops = [f["ns"][0] for f in last["files"] if len(f["ns"]) == 1 and f["ns"][0] != last["main"]]
+                    nxt = {"main": rng.choice(tops) if tops else last["main"], "files": last["files"],
+                           "shape": last["shape"] + "+main"}
+                trees.append(nxt)
+            if rng.chance(0.5):
+                trees.reverse()  # (the edited tree first, the original after it)
+        for t in trees:
+            # how the main file is named in the call
+            t["entry"] = rng.weighted([("abs", 6)] + [(e, 1) for e in ENTRIES[1:]])
+            finish(t)
+        case = dict(trees[-1])
+        if len(trees) > 1:
+            case["before"] = trees[:-1]
+        case["names"] = style
+        return case
 
     def gen(self, rng, n, tier):
         for _ in range(n):
@@ -920,20 +1098,70 @@ class Prop(Check):
             builtins.open = self._real_open
             for d in self._scratch:
                 shutil.rmtree(d, ignore_errors=True)
-        return {"load": "Timeout", "opened": []} if r == hang else r
+        if r == hang:
+            r = {"load": "Timeout", "opened": []}
+            if case.get("before"):
+                r["before"] = [{"load": "Timeout", "opened": []} for _ in case["before"]]
+        return r
 
     _real_open = builtins.open
     _scratch: list = []
 
     def impl_once(self, case):
+        """All steps of the history in this process and in one scratch directory: the directory is brought to the
+        files of the step (files whose text differs are rewritten in place, files the step does not have are
+        removed), then the main file is loaded and observed."""
         use_repo()
-        import textx
-        from textx import metamodel_from_file
-        from textx.exceptions import TextXError, TextXSemanticError, TextXSyntaxError
+        import textx  # noqa: F401
 
         shm = "/dev/shm"  # scratch files in memory when possible (outside /repo and /verif either way)
         tmp = os.path.realpath(tempfile.mkdtemp(prefix="c25_", dir=shm if os.access(shm, os.W_OK) else None))
         self._scratch.append(tmp)
+        cwd = os.getcwd()
+        outs = []
+        try:
+            for tree in steps_of(case):
+                try:
+                    outs.append(self.load_step(tree, tmp))
+                finally:
+                    builtins.open = self._real_open
+                    os.chdir(cwd)
+        finally:
+            builtins.open = self._real_open
+            os.chdir(cwd)
+            shutil.rmtree(tmp, ignore_errors=True)
+        out = outs[-1]
+        if len(outs) > 1:
+            out["before"] = outs[:-1]
+        return out
+
+    def sync_dir(self, tree, tmp):
+        real_open = self._real_open
+        want = {}
+        for f in tree["files"]:
+            want[os.path.join(tmp, *f["ns"]) + ".tx"] = render(tree, f)
+        for d, _, fns in os.walk(tmp):
+            for fn in fns:
+                p = os.path.join(d, fn)
+                if p not in want:
+                    os.remove(p)
+        for p, text in want.items():
+            os.makedirs(os.path.dirname(p), exist_ok=True)
+            old = None
+            if os.path.exists(p):
+                with real_open(p) as fh:
+                    old = fh.read()
+            if old != text:
+                with real_open(p, "w") as fh:
+                    fh.write(text)
+
+    def load_step(self, tree, tmp):
+        import pathlib
+
+        from textx import metamodel_from_file, metamodel_from_str
+        from textx.exceptions import TextXError, TextXSemanticError
+
+        case = tree
         opened = []
         real_open = self._real_open
 
@@ -946,42 +1174,54 @@ class Prop(Check):
                 pass
             return real_open(file, *a, **kw_)
 
-        out = {}
+        self.sync_dir(tree, tmp)
+        # how the main file is named in the call (the namespace of the main file is its name without the
+        # extension, the other namespaces are paths below its directory - however the directory is written)
+        entry = tree.get("entry", "abs")
+        mainfn = case["main"] + ".tx"
+        path = os.path.join(tmp, mainfn)
+        if entry == "rel":
+            os.chdir(tmp)
+            path = mainfn
+        elif entry == "reldir":
+            os.chdir(os.path.dirname(tmp))
+            path = os.path.join(os.path.basename(tmp), mainfn)
+        elif entry == "dot":
+            path = tmp + os.sep + "." + os.sep + mainfn
+        elif entry == "updown":
+            path = os.path.join(tmp, os.pardir, os.path.basename(tmp), mainfn)
+        elif entry == "path":
+            path = pathlib.Path(path)
+        builtins.open = logging_open
         try:
-            for f in case["files"]:
-                p = os.path.join(tmp, *f["ns"]) + ".tx"
-                os.makedirs(os.path.dirname(p), exist_ok=True)
-                with real_open(p, "w") as fh:
-                    fh.write(render(case, f))
-            builtins.open = logging_open
             try:
-                try:
-                    # (auto_init_attributes=False: an attribute no text assigned stays None whatever its type is named)
-                    mm = metamodel_from_file(os.path.join(tmp, case["main"] + ".tx"), auto_init_attributes=False)
-                finally:
-                    builtins.open = real_open
-            except TextXSemanticError as e:
-                # which name could not be resolved ("Unexisting rule" for rule references, "Unknown class/rule" for the
-                # class of a link): compared with the references the model cannot resolve at that point
-                mt = re.search(r'(?:Unexisting rule|Unknown class/rule) "([^"]+)"', e.message if hasattr(e, "message") else str(e))
-                return {"load": "semantic", "opened": opened, "name": mt.group(1) if mt else None,
-                        "msg": str(e).replace(tmp, "<tmp>")[:200]}
-            except FileNotFoundError as e:
-                fn = os.path.realpath(e.filename) if isinstance(e.filename, str) else ""
-                file = os.path.relpath(fn, tmp)[:-3].replace(os.sep, ".") if fn.startswith(tmp + os.sep) and fn.endswith(".tx") else None
-                return {"load": "FileNotFoundError", "opened": opened, "file": file,
-                        "msg": str(e).replace(tmp, "<tmp>")[:200]}
-            except TextXError as e:
-                return {"load": type(e).__name__, "opened": opened, "msg": str(e).replace(tmp, "<tmp>")[:200]}
-            except RecursionError:
-                return {"load": "RecursionError", "opened": opened}
-            except Exception as e:
-                return {"load": type(e).__name__, "opened": opened, "msg": str(e).replace(tmp, "<tmp>")[:200]}
-            out = self.observe(case, mm, opened)
-        finally:
-            builtins.open = real_open
-            shutil.rmtree(tmp, ignore_errors=True)
-        return out
+                # (auto_init_attributes=False: an attribute no text assigned stays None whatever its type is named)
+                if entry == "str":
+                    with open(path, encoding="utf-8") as fh:
+                        text = fh.read()
+                    mm = metamodel_from_str(text, file_name=path, auto_init_attributes=False)
+                else:
+                    mm = metamodel_from_file(path, auto_init_attributes=False)
+            finally:
+                builtins.open = real_open
+        except TextXSemanticError as e:
+            # which name could not be resolved ("Unexisting rule" for rule references, "Unknown class/rule" for the
+            # class of a link): compared with the references the model cannot resolve at that point
+            mt = re.search(r'(?:Unexisting rule|Unknown class/rule) "([^"]+)"', e.message if hasattr(e, "message") else str(e))
+            return {"load": "semantic", "opened": opened, "name": mt.group(1) if mt else None,
+                    "msg": str(e).replace(tmp, "<tmp>")[:200]}
+        except FileNotFoundError as e:
+            fn = os.path.realpath(e.filename) if isinstance(e.filename, (str, os.PathLike)) else ""
+            file = os.path.relpath(fn, tmp)[:-3].replace(os.sep, ".") if fn.startswith(tmp + os.sep) and fn.endswith(".tx") else None
+            return {"load": "FileNotFoundError", "opened": opened, "file": file,
+                    "msg": str(e).replace(tmp, "<tmp>")[:200]}
+        except TextXError as e:
+            return {"load": type(e).__name__, "opened": opened, "msg": str(e).replace(tmp, "<tmp>")[:200]}
+        except RecursionError:
+            return {"load": "RecursionError", "opened": opened}
+        except Exception as e:
+            return {"load": type(e).__name__, "opened": opened, "msg": str(e).replace(tmp, "<tmp>")[:200]}
+        return self.observe(case, mm, opened)
 
     def observe(self, case, mm, opened):
         from textx.exceptions import TextXError, TextXSemanticError
@@ -1134,6 +1374,11 @@ class Prop(Check):
 
     # -------------------------------------------------------------- model
     def model_req(self, case, obs):
+        if case.get("before"):
+            return {"op": "history", "steps": [self.model_req_tree(t) for t in steps_of(case)]}
+        return self.model_req_tree(case)
+
+    def model_req_tree(self, case):
         return {"op": "imports", "main": case["main"],
                 "files": [{"ns": f["ns"], "imports": f["imports"],
                            "rules": [{"name": r["name"], "refs": [{"q": x["q"], "n": x["n"]} for x in xrefs(r)]}
@@ -1222,6 +1467,20 @@ class Prop(Check):
     def compare(self, case, obs, out):
         if "err" in out:
             return f"model did not answer: {out}"
+        if not case.get("before"):
+            return self.compare_tree(case, obs, out)
+        trees, os_, outs = steps_of(case), step_obs(case, obs), out["out"].get("steps")
+        if os_ is None or outs is None or len(outs) != len(trees):
+            return f"history of {len(trees)} loads: {None if os_ is None else len(os_)} observations, model answers {outs if outs is None else len(outs)}"
+        for k, (t, o, mo) in enumerate(zip(trees, os_, outs)):
+            bad = self.compare_tree(t, o, mo, later=k > 0)
+            if bad:
+                return f"load {k + 1} of {len(trees)} (one process, one directory): {bad}"
+        return None
+
+    def compare_tree(self, case, obs, out, later=False):
+        if "err" in out:
+            return f"model did not answer: {out}"
         m = out["out"]
         bad = self.compare_spec(case, obs, m)
         if bad:
@@ -1245,7 +1504,8 @@ class Prop(Check):
             return f"model loads the grammars, implementation fails: {obs['load']} {obs.get('msg', '')}"
         v = self.model_view(out)
         files = files_of(case)
-        if obs["opened"] != v["opened"]:
+        if obs["opened"] != v["opened"] and not (later and obs["opened"] == [x for x in v["opened"] if x in obs["opened"]]):
+            # (after the first load of the process a file that was read before need not be opened again)
             return f"opened files differ: impl {obs['opened']} model {v['opened']}"
         if obs["classes"] != v["classes"]:
             return f"classes / _tx_fqn differ: impl {obs['classes']} model {v['classes']}"
@@ -1286,7 +1546,9 @@ class Prop(Check):
         return None
 
     # ------------------------------------------------------------- oracle
-    def oracle_core(self, case, obs, skipmap=None):
+    def oracle_core(self, case, obs, skipmap=None, later=False):
+        """`later`: not the first load of the process - a file that was read before need not be opened again (the
+        statement is about classes and names, not about file access), but none is opened twice"""
         clos = closure(case)
         if clos is None:
             return None  # an import names a missing file: not covered by the statement
@@ -1312,7 +1574,8 @@ class Prop(Check):
             return f"classes / qualified names: expected {want_classes}, got {obs['classes']}"
         if obs["dups"]:
             return f"a grammar file yielded more than one class for {obs['dups']}"
-        if sorted(obs["opened"]) != sorted(clos):
+        if sorted(obs["opened"]) != sorted(clos) and not (later and len(set(obs["opened"])) == len(obs["opened"])
+                                                          and set(obs["opened"]) <= set(clos)):
             return f"files opened {obs['opened']}, files connected by imports {clos} (each exactly once)"
         ptab = {k: [t if isinstance(t, list) else None for t in ts] for k, ts in tab.items()}
         for (ns, rn), ts in sorted(tab.items()):
@@ -1359,14 +1622,25 @@ class Prop(Check):
         return None
 
     def oracle(self, case, obs):
-        return self.oracle_core(case, obs)
+        """every load of the history is judged on the files as they are when it is made"""
+        if not case.get("before"):
+            return self.oracle_core(case, obs)
+        trees, os_ = steps_of(case), step_obs(case, obs)
+        if os_ is None:
+            return f"history of {len(trees)} loads, but the observation is {str(obs)[:200]}"
+        for k, (t, o) in enumerate(zip(trees, os_)):
+            bad = self.oracle_core(t, o, later=k > 0)
+            if bad:
+                return (f"load {k + 1} of {len(trees)} (same process, same directory, files as they are at that "
+                        f"moment): {bad}")
+        return None
 
     def back_edges(self, case):
         anc = load_ancestors(case)
         files = files_of(case)
         return [(ns, i) for ns, a in anc.items() if ns in files for i in abs_imports(files[ns]) if i in a]
 
-    def classify(self, case, obs, failure):
+    def classify_tree(self, case, obs, later=False):
         """Cyclic-import finding: some file imports a file that is still being loaded, and what the
         implementation did is exactly the documented resolution with those (still empty) files
         invisible.  Anything else stays a violation."""
@@ -1374,10 +1648,22 @@ class Prop(Check):
             return None
         if not self.back_edges(case):
             return None
-        if self.oracle_core(case, obs) is None:
+        if self.oracle_core(case, obs, later=later) is None:
             # the documented oracle is satisfied: this is a model/implementation disagreement, not the finding
             return None
-        if self.oracle_core(case, obs, load_ancestors(case)) is None:
+        if self.oracle_core(case, obs, load_ancestors(case), later=later) is None:
+            return KF_CYCLE
+        return None
+
+    def classify(self, case, obs, failure):
+        """a history is the known finding only when every load of it that fails the oracle is"""
+        if not case.get("before"):
+            return self.classify_tree(case, obs)
+        trees, os_ = steps_of(case), step_obs(case, obs)
+        if os_ is None or any(not isinstance(o, dict) or "load" not in o for o in os_):
+            return None
+        failing = [(t, o, k > 0) for k, (t, o) in enumerate(zip(trees, os_)) if self.oracle_core(t, o, later=k > 0) is not None]
+        if failing and all(self.classify_tree(t, o, later) == KF_CYCLE for t, o, later in failing):
             return KF_CYCLE
         return None
 
@@ -1403,10 +1689,80 @@ class Prop(Check):
 
     # ------------------------------------------------------------- shrink
     def shrink(self, case):
+        """history first (a single load, fewer loads, the plain way of naming the main file, the plain file
+        names), then each tree of it"""
+        import copy
+
+        trees = steps_of(case)
+
+        def mkcase(ts):
+            c = dict(ts[-1])
+            if len(ts) > 1:
+                c["before"] = ts[:-1]
+            return c
+
+        if len(trees) > 1:
+            for t in reversed(trees):
+                yield mkcase([t])
+            for k in range(len(trees) - 1):
+                yield mkcase(trees[:k] + trees[k + 1:])
+        if any(t.get("entry", "abs") != "abs" for t in trees):
+            yield mkcase([dict(t, entry="abs") for t in trees])
+        # plain names: file number k is called m, b, c, …, directories sub / deep / lib
+        segs = []
+        for t in trees:
+            for f in t["files"]:
+                for x in f["ns"][:-1]:
+                    if ("d", x) not in segs:
+                        segs.append(("d", x))
+        stems = []
+        for t in trees:
+            for f in t["files"]:
+                if f["ns"][-1] not in stems:
+                    stems.append(f["ns"][-1])
+        dmap = {x: n for (_, x), n in zip(segs, ["sub", "deep", "lib", "dir4", "dir5", "dir6"])}
+        smap = {x: n for x, n in zip(stems, LETTERS + ["i", "j", "k", "l", "n", "o", "p", "q"])}
+        if len(dmap) == len(segs) and len(smap) == len(stems) and any(k != v for k, v in list(dmap.items()) + list(smap.items())):
+            def ren(ns, last=True):
+                return [dmap[x] for x in ns[:-1]] + [smap[ns[-1]]]
+
+            def ren_imp(cur, imp):
+                a = abs_import(cur, imp)
+                return ren(a)[len(cur) - 1:]
+
+            out = []
+            for t in trees:
+                t2 = copy.deepcopy(t)
+                for f in t2["files"]:
+                    cur = f["ns"]
+                    try:
+                        f["imports"] = [ren_imp(cur, i) for i in f["imports"]]
+                        for r in f["rules"]:
+                            for x in r["refs"]:
+                                if x["q"] is not None:
+                                    x["q"] = ren(x["q"])
+                    except KeyError:  # an import / a qualifier naming no file of the tree
+                        out = None
+                        break
+                    f["ns"] = ren(cur)
+                if out is None:
+                    break
+                t2["main"] = smap.get(t2["main"], t2["main"])
+                out.append(finish(t2))
+            if out:
+                yield mkcase(out)
+        for k in range(len(trees) - 1, -1, -1):
+            for t2 in self.shrink_tree(trees[k]):
+                yield mkcase(trees[:k] + [t2] + trees[k + 1:])
+
+    def shrink_tree(self, case):
         import copy
 
         def mk(files):
-            return finish({"main": case["main"], "files": files, "shape": case.get("shape", "shrunk")})
+            t = {"main": case["main"], "files": files, "shape": case.get("shape", "shrunk")}
+            if case.get("entry"):
+                t["entry"] = case["entry"]
+            return finish(t)
 
         fs = case["files"]
         for i in range(len(fs) - 1, 0, -1):  # drop a file and the imports naming it
@@ -1446,8 +1802,14 @@ class Prop(Check):
         return [self.gen_one(rng, tier) for _ in range(600 if tier == "quick" else 4000)]
 
     def sample_view(self, case, obs):
-        return {"files": {nstr(f["ns"]): render(case, f) for f in case["files"]}, "texts": [" ".join(t) for t in case["texts"]],
-                "impl": {k: obs.get(k) for k in ("load", "opened", "models", "dups")} if isinstance(obs, dict) else obs}
+        v = {"files": {nstr(f["ns"]): render(case, f) for f in case["files"]}, "main": case["main"],
+             "entry": case.get("entry", "abs"), "texts": [" ".join(t) for t in case["texts"]],
+             "impl": {k: obs.get(k) for k in ("load", "opened", "models", "dups")} if isinstance(obs, dict) else obs}
+        if case.get("before"):
+            v["loaded_before_in_the_same_directory"] = [
+                {"files": {nstr(f["ns"]): render(t, f) for f in t["files"]}, "main": t["main"], "entry": t.get("entry", "abs")}
+                for t in case["before"]]
+        return v
 
     def extra_evidence(self, cases, obs, model_outs):
         dist = {"load": {}, "shape": {}, "files": {}, "with_back_edge": 0, "with_diamond": 0, "nested_dirs": 0,
@@ -1455,6 +1817,35 @@ class Prop(Check):
                 "texts_link_read": 0, "finding_cases": 0, "match_rules": 0, "cases_redefining_builtin": 0,
                 "refs_to_match_or_builtin": 0, "refs_to_own_rule_with_builtin_name": 0, "links_explicit_match_rule": 0,
                 "links_matched_by_own_rule_with_builtin_name": 0}
+        hist = {"cases_with_history": 0, "loads": 0, "loads_ok": 0, "steps_changing_a_loaded_file": 0, "entry": {}, "names": {},
+                "main_stem_ends_in_t_x": 0, "main_stem_ends_in_t_x_and_cycle_through_main": 0,
+                "same_stem_in_two_directories": 0, "file_named_like_a_directory": 0}
+        dist["history"] = hist
+        for c, o in zip(cases, obs):
+            so = step_obs(c, o)
+            if so is None:
+                continue
+            trees = steps_of(c)
+            hist["cases_with_history"] += len(trees) > 1
+            hist["names"][c.get("names", "letters")] = hist["names"].get(c.get("names", "letters"), 0) + 1
+            prev = {}
+            for t, x in zip(trees, so):
+                hist["loads"] += 1
+                hist["loads_ok"] += isinstance(x, dict) and x.get("load") == "ok"
+                e = t.get("entry", "abs")
+                hist["entry"][e] = hist["entry"].get(e, 0) + 1
+                cur = {nstr(f["ns"]): render(t, f) for f in t["files"]}
+                clos = closure(t) or []
+                hist["steps_changing_a_loaded_file"] += any(k in prev and prev[k] != cur[k] for k in clos)
+                prev = cur
+                if t["main"][-1:] in ("t", "x"):
+                    hist["main_stem_ends_in_t_x"] += 1
+                    fm = files_of(t)
+                    if any(t["main"] in abs_imports(fm[k]) for k in clos):
+                        hist["main_stem_ends_in_t_x_and_cycle_through_main"] += 1
+                stems = [f["ns"][-1] for f in t["files"]]
+                hist["same_stem_in_two_directories"] += len(set(stems)) < len(stems)
+                hist["file_named_like_a_directory"] += any(f["ns"][-1] in g["ns"][:-1] for f in t["files"] for g in t["files"])
         for c, o in zip(cases, obs):
             if not isinstance(o, dict) or "load" not in o:
                 continue
